@@ -157,6 +157,14 @@ func (f changeFinder) Walk(from, to *value) (equal bool) {
 			f.unchanged(from, to)
 			return true
 		}
+
+		// A node that was modified in place still covers the source it
+		// covered before, with the same comments around it. The next
+		// change needs both to leave those comments alone.
+		if from.IsNode && to.IsNode && from.Pos() == to.Pos() {
+			to.Comments = from.Comments
+			to.end = from.End()
+		}
 		return false
 
 	case reflect.Slice:
